@@ -63,7 +63,13 @@ def density_exprs(tier):
     out += L.booleans2("quick") + L.booleans1(tier) + [L.B(x) for x in L.booleans2("quick")[:12]]
     out += [L.Tr(L.SQ, [0.7, -0.4]), L.Rot(L.SLP, 0.5), L.Tr(L.Cut(L.SQ, L.IN_C, contained=True), [L.aff(0, t=1), 0]),
             L.X(L.I01, L.IT), L.X(L.C1, L.IT)]
+    # two unit squares overlapping with COLLINEAR top and bottom edges (an L-/bar-shape assembled from rectangles): pieces of
+    # both operand boundaries coincide and lie on the boundary of the union
+    out += [ALIGNED_U, L.B(ALIGNED_U)]
     return L.dedupe(out)
+
+
+ALIGNED_U = L.U(L.SQ, L.P([0.5, 0.0], [1.5, 0.0], [0.5, 1.0]))
 
 
 def items(tier):
@@ -394,6 +400,16 @@ def run_item(item):
             true_v = float(closed[0])
         elif solid and not G.has_kind_prod(a):
             true_v = G.quad_measure(a, vals1)
+        elif G.show(a) == G.show(L.B(ALIGNED_U)):
+            true_v = 5.0          # perimeter of the 1.5 x 1 bar (coincident pieces of the operand boundaries count once)
+        elif a["k"] == "boundary" and G.is_solid(a["a"]) and not G.has_kind_prod(a):
+            # length / area of the boundary of a Boolean combination: reference boundary points of the leaves (uniform in
+            # arclength) that the ring test keeps on the composite boundary
+            from .c11 import boundary_shares
+            bx = G.ref_box(a, vals1)[0]
+            ex = bx[:, 1] - bx[:, 0]
+            boundary_shares(a["a"], th, np.stack([bx[:, 0] - 0.01 * ex, bx[:, 1] + 0.01 * ex], 1), 2)
+            true_v = float(boundary_shares.total)
         if true_v is None or true_v <= 0:
             continue
         prm = Bd.params_points({v: [x] for v, x in th.items()}) if th else Points.empty()
